@@ -240,10 +240,16 @@ def name_scheme(ck, S, RID):
             # recovered by the abstract string evaluation and compared with the writer above
             continue
         sfx = [v for n in fn.find(lambda n: n.get("k") == "decl") for v in n.get("vars", []) if isinstance(v.get("init"), dict) and is_call(deref_local(fn, v["init"]), ("QFileInfo::suffix", "QFileInfo::completeSuffix"))]
-        if len(sfx) != 1:
+        # the suffix may also be a member of a local aggregate (`name.suffix`, the aggregate returned by a spliced helper): anything whose value is the file's suffix
+        is_sfx_val = lambda x: isinstance(x, dict) and is_call(skip_copies(deref_local(fn, skip_copies(x))), ("QFileInfo::suffix", "QFileInfo::completeSuffix"))
+        by_value = [n for n in fn.calls() if is_call(n, "QString::isEmpty") and is_sfx_val(n.get("obj"))]
+        if len(sfx) != 1 and not by_value:
             ck.ob(RID, sitestr(fn), None, "%s: suffix local not found" % nm)
             continue
-        isE = lambda n, d=sfx[0]["decl"]: is_call(n, "QString::isEmpty") and is_ref_to(skip_copies(n).get("obj"), d)
+        if len(sfx) == 1:
+            isE = lambda n, d=sfx[0]["decl"]: is_call(n, "QString::isEmpty") and (is_ref_to(skip_copies(n).get("obj"), d) or is_sfx_val(skip_copies(n).get("obj")))
+        else:
+            isE = lambda n: is_call(n, "QString::isEmpty") and is_sfx_val(skip_copies(n).get("obj"))
         short = min(tp, key=lambda x: len(x[0]))
         long_ = max(tp, key=lambda x: len(x[0]))
         le = gg.live(gg.projector(atom_eq(isE, True)))
